@@ -40,3 +40,139 @@ Theorem C02_in_out : forall uw paths,
   Forall (fun p => p <> []) paths -> sh_words uw (nj_in_out paths) = Some paths.
 Proof. exact in_out_words. Qed.
 Print Assumptions C02_in_out.
+
+(* ---------------------------------------------------------------------------------------------------------------
+   Phase 2: the manifest STRUCTURE is read by the model too (Ninja/NinjaManifest.v: parse_manifest, command_of),
+   the text layout is the W model of NinjaFile.write (Ninja/NinjaFileWrite.v). *)
+From BFG Require Import Graph.BackendAgree Ninja.NinjaManifest Ninja.NinjaFileWrite Ninja.NinjaManifestProofs.
+
+(* channel B at the level of the whole build.ninja text: for the text NinjaFile.write produces for
+   writer.py command_build (rule command / console_command with command = ${cmd}, edge binding cmd = words, optional
+   description, pool = console and ninja_required_version), the parser succeeds and the command Ninja runs for every
+   output is split by sh into exactly the command words.
+   Guards: the build.bfg path has no newline; outputs / inputs are non-empty names without newline and |
+   (path_ok); phony = false (the PHONY helper edge is covered by the run-time oracle only). *)
+Theorem C02_manifest_cmd : forall uw bfg outs ins imp oo ws console desc text o,
+  has_nl bfg = false ->
+  Forall (fun p => path_ok p = true) outs -> Forall (fun p => path_ok p = true) ins ->
+  Forall (fun p => path_ok p = true) imp -> Forall (fun p => path_ok p = true) oo -> In o outs ->
+  nf_write uw (w_command_build bfg outs ins imp oo ws console false desc) = Some text ->
+  exists m cmd, parse_manifest text = Some m /\ command_of m o = Some cmd /\ sh_words uw cmd = Some ws.
+Proof. exact manifest_cmd. Qed.
+Print Assumptions C02_manifest_cmd.
+
+Example C02_manifest_cmd_nonvacuous :
+  let uw := fun _ : char => false in
+  let ws := ([[99; 99]; [45; 68; 70; 61; 97; 35; 98]; [105; 116; 39; 115]; [36; 72]; [97; 32; 98]]%N : list str) in
+  let outs := ([[111; 32; 49]; [111; 36; 50]]%N : list str) in
+  exists text m cmd,
+    nf_write uw (w_command_build [98; 46; 98; 102; 103]%N outs [[105; 58; 110]%N] [] [[120]%N] ws true false (Some [100; 32; 36; 120]%N)) = Some text /\
+    Forall (fun p => path_ok p = true) outs /\
+    parse_manifest text = Some m /\ command_of m [111; 36; 50]%N = Some cmd /\ sh_words uw cmd = Some ws /\
+    description_of m [111; 32; 49]%N = Some [100; 32; 36; 120]%N.
+Proof.
+  eexists. eexists. eexists. split; [vm_compute; reflexivity|]. split; [repeat constructor|].
+  split; [vm_compute; reflexivity|]. split; [vm_compute; reflexivity|]. split; vm_compute; reflexivity.
+Qed.
+
+(* an edge binding always wins over a file-level variable of the same name (whatever the file scope holds, and
+   whatever the rule binds under that name); in / out are the only names that precede edge bindings *)
+Theorem C02_edge_shadows_file : forall f esc file file' rb e n v,
+  str_eqb n s_in = false -> str_eqb n s_out = false -> lookup_val (e_binds e) n = Some v ->
+  edge_lookup (S f) esc file rb e n = Some v /\ edge_lookup (S f) esc file' rb e n = Some v.
+Proof. exact edge_shadows_file. Qed.
+Print Assumptions C02_edge_shadows_file.
+
+(* x = file / rule r: command = echo $x / build o: r with x = edge  -> echo edge ; build p: r -> echo file *)
+Example C02_edge_shadows_file_nonvacuous :
+  let text := ([120; 32; 61; 32; 102; 105; 108; 101; 10;
+                114; 117; 108; 101; 32; 114; 10; 32; 32; 99; 111; 109; 109; 97; 110; 100; 32; 61; 32; 101; 99; 104; 111; 32; 36; 120; 10;
+                98; 117; 105; 108; 100; 32; 111; 58; 32; 114; 10; 32; 32; 120; 32; 61; 32; 101; 100; 103; 101; 10;
+                98; 117; 105; 108; 100; 32; 112; 58; 32; 114; 10]%N : str) in
+  exists m, parse_manifest text = Some m /\
+            command_of m [111]%N = Some [101; 99; 104; 111; 32; 101; 100; 103; 101]%N /\
+            command_of m [112]%N = Some [101; 99; 104; 111; 32; 102; 105; 108; 101]%N.
+Proof. eexists. split; [vm_compute; reflexivity|]. split; vm_compute; reflexivity. Qed.
+
+(* channels G + E + IO at the level of the whole build.ninja text (the shape flags_vars / cmd_var / ninja_compile
+   produce): file level  cc = ccw ; global_cflags = g ; cflags = ${global_cflags};
+   rule cc with  command = ${cc} ${cflags} -c ${in} -o ${out};  edge  build obj: cc src  with
+   cflags = ${global_cflags} t.  The text is parsed and the command of obj is
+       <cc> <flags> -c <in> -o <out>
+   where sh splits <cc> into ccw, <flags> into g ++ t in order (the rule-level ${cflags} sees the EDGE binding and
+   the edge binding sees the FILE-level global_cflags), <in> into [src] and <out> into [obj].
+   Guards: build.bfg path without newline, src / obj non-empty without newline and |.  (The whole line is a
+   blank-separated concatenation of these pieces; splitting of the whole line is checked by the real dash.) *)
+Theorem C02_scoping : forall uw bfg ccw g t src obj text,
+  has_nl bfg = false -> path_ok src = true -> path_ok obj = true ->
+  nf_write uw (w_compile_file bfg ccw g t src obj) = Some text ->
+  exists m flags,
+    parse_manifest text = Some m /\
+    command_of m obj = Some (join uw ccw ++ c_sp :: flags ++ s_sp_c ++ nj_in_out [src] ++ s_sp_o ++ nj_in_out [obj]) /\
+    sh_words uw (join uw ccw) = Some ccw /\ sh_words uw flags = Some (g ++ t) /\
+    sh_words uw (nj_in_out [src]) = Some [src] /\ sh_words uw (nj_in_out [obj]) = Some [obj].
+Proof. exact scoping. Qed.
+Print Assumptions C02_scoping.
+
+Example C02_scoping_nonvacuous :
+  let uw := fun _ : char => false in
+  let g := ([[45; 68; 71; 61; 49]; [45; 68; 88; 61; 97; 32; 98]]%N : list str) in
+  let t := ([[45; 102; 80; 73; 67]; [45; 68; 76; 61; 36; 120]]%N : list str) in
+  let src := ([105; 110; 32; 112; 117; 116; 46; 99]%N : str) in
+  let obj := ([111; 32; 117; 116; 46; 111]%N : str) in
+  exists text m cmd,
+    nf_write uw (w_compile_file [98; 46; 98; 102; 103]%N [[99; 99]%N] g t src obj) = Some text /\
+    path_ok src = true /\ path_ok obj = true /\
+    parse_manifest text = Some m /\ command_of m obj = Some cmd /\
+    sh_words uw cmd = Some ([[99; 99]%N] ++ (g ++ t) ++ [[45; 99]%N; src; [45; 111]%N; obj]).
+Proof.
+  eexists. eexists. eexists. split; [vm_compute; reflexivity|]. split; [reflexivity|]. split; [reflexivity|].
+  split; [vm_compute; reflexivity|]. split; vm_compute; reflexivity.
+Qed.
+
+(* the structure parser succeeds on every text the W model of NinjaFile.write produces for well-formed contents.
+   Guards (all enforced or implied by NinjaFile itself except the first three):
+   - the build.bfg path has no newline;
+   - file-level names are ASCII identifiers that are neither statement keywords nor reserved rule keys (wvar_ok),
+     values consist of strings, shell literals and variable references ${name} (items_ok; no other literals, no Paths);
+   - edge outputs / inputs / defaults are plain non-empty names without newline and | (path_ok);
+   - rule names are ASCII identifiers, distinct, not phony; every edge names a declared rule or phony. *)
+Theorem C02_parse_total_on_written : forall uw wf pbs dflt text,
+  has_nl (wf_bfgfile wf) = false ->
+  Forall wvar_ok (wf_path wf) -> Forall wvar_ok (wf_command wf) -> Forall wvar_ok (wf_flags wf) ->
+  Forall wvar_ok (wf_other wf) -> rules_ok [] (wf_rules wf) ->
+  wf_builds wf = map to_wbuild pbs -> Forall (pbuild_ok (map wr_name (wf_rules wf))) pbs ->
+  wf_defaults wf = path_items dflt -> Forall (fun p => path_ok p = true) dflt ->
+  nf_write uw wf = Some text -> exists m, parse_manifest text = Some m.
+Proof. exact parse_total_on_written. Qed.
+Print Assumptions C02_parse_total_on_written.
+
+(* the guard is satisfiable on a file with every kind of statement *)
+Example C02_parse_total_nonvacuous :
+  let uw := fun _ : char => false in
+  let x := ([120]%N : str) in let r := ([114]%N : str) in let o := ([111; 32; 49]%N : str) in
+  let wf := mkWFile [98]%N (Some [49; 46; 53]%N) [(x, [[NStr [97; 32; 98]%N]])] [] [] [([121]%N, [[NLit (var_use x)]; [NStr [39]%N]])]
+              [mkWRule r [[NStr [101]%N]; [NLit (var_use x)]] (Some [[NLit (var_use t_out); NStr [46; 100]%N]]) None
+                       (Some [[NStr [100; 36]%N]]) true (Some [[NStr t_console]]) false]
+              [to_wbuild (mkPB [o] r [[105]%N] [] [[113]%N] [(t_description, [[NStr [36; 32]%N]]); (x, [[NStr [122; 32]%N]])]);
+               to_wbuild (mkPB [[97; 108; 108]%N] s_phony [o] [] [] [])]
+              (path_items [o]) in
+  exists text, nf_write uw wf = Some text /\
+    Forall wvar_ok (wf_path wf) /\ Forall wvar_ok (wf_other wf) /\ rules_ok [] (wf_rules wf) /\
+    Forall (pbuild_ok (map wr_name (wf_rules wf)))
+      [mkPB [o] r [[105]%N] [] [[113]%N] [(t_description, [[NStr [36; 32]%N]]); (x, [[NStr [122; 32]%N]])]; mkPB [[97; 108; 108]%N] s_phony [o] [] [] []] /\
+    exists m, parse_manifest text = Some m /\ length (m_edges m) = 2%nat.
+Proof.
+  eexists. split; [vm_compute; reflexivity|].
+  split; [repeat constructor|]. split; [repeat constructor|].
+  split.
+  { cbn [rules_ok wf_rules]. split; [|repeat split; reflexivity].
+    unfold wrule_ok. cbn. split; [reflexivity|]. split; [repeat constructor|].
+    split; [intros v E; inversion E; repeat constructor|]. split; [discriminate|].
+    split; intros v E; inversion E; repeat constructor. }
+  split.
+  { constructor; [|constructor; [|constructor]].
+    - split; [|reflexivity]. unfold wbuild_ok. cbn. repeat split; try discriminate; repeat constructor; discriminate.
+    - split; [|reflexivity]. unfold wbuild_ok. cbn. repeat split; try discriminate; repeat constructor. }
+  eexists. split; vm_compute; reflexivity.
+Qed.
